@@ -448,10 +448,26 @@ def tcp_stream_table(chk: Check, repo: Repo, lbd: LowerBound) -> None:
                 out["S"] = True
             elif cmp_matches(n.ast, tv, lambda s: s.startswith("len("), ">=", lambda s: s.endswith(".total_length")):
                 out["S"] = False
+            elif cmp_matches(n.ast, tv, lambda s: s.startswith("len("), "<", lambda s: s.endswith("HEADERLENGTH")):
+                out["H"] = True  # fewer octets than a header
+            elif cmp_matches(n.ast, tv, lambda s: s.startswith("len("), ">=", lambda s: s.endswith("HEADERLENGTH")):
+                out["H"] = False
+            elif cmp_matches(n.ast, tv, lambda s: s.endswith("[0]"), "==", lambda s: s.endswith("HEADERLENGTH")):
+                out["F"] = True  # the first octet is the header length octet
+            elif cmp_matches(n.ast, tv, lambda s: s.endswith("[0]"), "!=", lambda s: s.endswith("HEADERLENGTH")):
+                out["F"] = False
         return out
 
     stream = Sym("obj:unparsed-stream")
     env0 = {cur: stream, "self._buffer": b""}
+    # premise read off the header parser: can it reject (not: report incomplete) fewer than six octets?
+    hp = repo.func("xknx.knxip.header", "KNXIPHeader.from_knx")
+    hcfg = CFG(hp.node)
+    hmf = hcfg.must_facts()
+    hdata = hp.node.args.args[1].arg
+    short_reject = any(n.kind == "stmt" and isinstance(n.ast, ast.Raise) and n.ast.exc is not None and "CouldNotParseKNXIP" in ast.unparse(n.ast.exc)
+                       and any(val and atom.startswith(f"len({hdata}) < ") and atom.endswith("HEADERLENGTH") for atom, val in hmf[n.id]) for n in hcfg.nodes)
+    chk.count("header parser rejects some inputs shorter than a header", int(short_reject))
 
     def outcome(p) -> tuple:
         tr = tuple(t for t in p.env.get("trace", ()) if not t.startswith("raise:"))
@@ -476,9 +492,34 @@ def tcp_stream_table(chk: Check, repo: Repo, lbd: LowerBound) -> None:
                 for s in (True, False):
                     if c.get("U", u) == u and c.get("S", s) == s:
                         cells.setdefault((u, s), set()).add(outcome(p))
+        if short_reject and hdr == "raises":
+            # the header parser rejects some inputs of fewer than six octets (not 'incomplete': no continuation makes them
+            # a frame).  The announced length has not arrived then.  If the first octet is the header-length octet the
+            # length is still to come and the frame can be skipped by it - wait; otherwise nothing tells where the next
+            # frame starts.
+            sub: dict[tuple, set] = {}
+            for p in paths:
+                c = conds(p)
+                if c.get("U", True) is not True:
+                    continue
+                for h in (True, False):
+                    for f_ in (True, False):
+                        if c.get("H", h) == h and c.get("F", f_) == f_:
+                            sub.setdefault((h, f_), set()).add(outcome(p))
+            for (h, f_), outs in sorted(sub.items()):
+                if h and f_:
+                    ok = outs == {((f"BUF:={stream!r}",), "return")}
+                    req = "the announced length is still to come: buffer everything and wait, so that the frame can be skipped and those behind it are not lost"
+                else:
+                    ok = all(end == "return" and not any(t.startswith("HANDLE") for t in tr) for tr, end in outs) or all(end == "next-iteration" and any(t.startswith(f"CUR:={stream!r}[") for t in tr) for tr, end in outs)
+                    req = "no usable length: stop (or resynchronise with progress); never hand over, never loop in place"
+                chk.ob("tcp-stream-cell", fi.site(wl), ok, f"rejected header, announced length unread, {'fewer than six octets' if h else 'six or more octets'}, first octet {'is' if f_ else 'is not'} the header-length octet: {sorted(map(str, outs))}; required: {req}", key=f"tcp|short|{h}|{f_}" + ("" if ok else f"|{sorted(map(str, outs))}"))
+            chk.floor("rejected-short-header cells", len(sub), 2)
         for (u, s), outs in sorted(cells.items()):
             if u and s:
-                continue  # infeasible: a parse error (not 'incomplete') means >= 6 octets are present
+                continue  # infeasible: the announced length is unusable, so nothing can be "missing" by it
+            if u and short_reject and hdr == "raises":
+                continue  # decided by the rejected-short-header cells above
             if not u and not s:
                 ok = len(outs) == 1 and all(end == "next-iteration" and len(tr) == 1 and tr[0].startswith(f"CUR:={stream!r}[") and tr[0].endswith(".total_length:]") for tr, end in outs)
                 req = "skip exactly the announced length and keep parsing (no hand-over, nothing buffered)"
@@ -561,6 +602,11 @@ def header_length_readable(chk: Check, repo: Repo) -> None:
             continue
         n_r += 1
         len_octet = any(val and f"{data}[0]" in atom for atom, val in mf[n.id])
+        # fewer than six octets: the announced length (octets 4-5) has not arrived - nothing to skip by
+        short = any(val and atom.startswith(f"len({data}) < ") and atom.endswith("HEADERLENGTH") for atom, val in mf[n.id])
+        if short:
+            chk.ob("announced-length-stored-before-rejecting", fi.site(n.ast), True, f"`raise {txt[:60]}` rejects fewer than HEADERLENGTH octets (no announced length to store)", key=f"hdr|raise|short|{canon(n.ast)[:80]}")
+            continue
         ok = cfg.dominates(a.id, n.id) or len_octet
         chk.ob("announced-length-stored-before-rejecting", fi.site(n.ast), ok, f"`raise {txt[:60]}` is {'preceded by the total_length assignment' if cfg.dominates(a.id, n.id) else ('the header-length-octet rejection (no readable length)' if len_octet else 'reached WITHOUT total_length having been stored: the TCP transport cannot skip such a frame and drops the stream')}", key=f"hdr|raise|{canon(n.ast)[:80]}")
     chk.floor("header rejections", n_r, 3)
